@@ -35,6 +35,9 @@ Does NOT require (behaviour the statement leaves open is accepted either way):
 * anything about unreadable members themselves (an empty or truncated file may be collected as a
   0-command file of its mtime, or be left alone and not counted) - only that they do not disturb the
   collection of the readable files;
+* (REQUIRED, from "deletes strictly oldest-first": the unlink calls of a pass are recorded through an
+  ``os`` shim in the module namespace and must be oldest-first, ties either way - an interrupted pass
+  then leaves the newest files);
 * the text of the refusal warning, negative limits, files dated in the future, non-"commands" units
   for SQLite (documented as unsupported).
 """
@@ -718,6 +721,8 @@ def _check_boot_sources(item):
                             bad = _judge(files, boot, unit, limit, force, deleted, crash, refused)
                             if bad:
                                 key = f"json-boot:{bad[0]}:{source}:suspended={int(susp)}s"
+                                if bad[0] == "unlink-order-not-oldest-first":
+                                    key = _key(bad[0], unit, limit, force)
                                 if key not in seen:
                                     seen[key] = {
                                         "key": key,
